@@ -10,7 +10,7 @@ def conds(tier):
     out = []
     out.append(Cond("ctx2", ctx.mk_ctx2(P, 2, (0, 1, 4, 6, 8), (0, 3, 4, 6, 7, 11, 12), 4), ctx.ctx2_params(2, 5, 7, 4, ho=0 if q else 1), pin=3,
                     budget=200, family="F-CTX two pending tasks", encodes=ctx.ENC_CTX))
-    out.append(Cond("ctxsync", ctx.mk_ctx2(P, 2, (0, 5, 7), (0, 7), 2), ctx.ctx2_params(2, 3, 2, 2), pin=3,
+    out.append(Cond("ctxsync", ctx.mk_ctx2(P, 2, (0, 5, 7, 9), (0, 7), 2), ctx.ctx2_params(2, 4, 2, 2), pin=3,
                     builds=("C", "P"),
                     budget=200, family="F-CTX x F-REENTRY (synchronous calls, child tasks)", encodes=ctx.ENC_CTX))
     if not q:
